@@ -88,7 +88,7 @@ _HEAP_COMPLETE = ['proofs::o20_2_next_aligned', 'proofs::o20_2_array_layout_str'
 _HEAP_BOUNDED = ['proofs::o20_1_alloc_drop_string', 'proofs::o20_1_alloc_drop_tuple', 'proofs::o20_1_alloc_drop_box', 'proofs::o20_1_alloc_drop_method',
                  'proofs::o20_1_alloc_drop_list', 'proofs::o20_3_unique_vector_handle', 'proofs::o20_3_shared_vector_handle', 'proofs::o20_3_array_handle']
 _GC_BOUNDED = ['proofs::o20_4_full_collection_exact', 'proofs::o20_4n_nursery_collection_exact', 'proofs::o20_4p_promoted_then_full_exact']
-_GC_C05 = ['proofs::o05_4_marks_cleared', 'proofs::o05_4_temp_root_survives', 'proofs::o20_4_full_collection_exact']
+_GC_C05 = ['proofs::o05_4_marks_cleared', 'proofs::o05_4_temp_root_survives', 'proofs::o20_4_full_collection_exact', 'proofs::o05_5_inflight_obj_survives', 'proofs::o05_5_inflight_alloc_survives']
 _GC_C09 = ['proofs::o09_intern_twice', 'proofs::o09_intern_across_collection']
 PROPS['C20'] = dict(
   level='proof',
